@@ -447,6 +447,50 @@ def rule_eval_state_reset(db: ProgramDB) -> List[Instance]:
                             f"and read by evaluation code, but not re-created by the reset of {sorted(set(not_reset))} "
                             f"and not re-initialised per evaluation: what one evaluation leaves here changes the next",
                             line=fld.lineno, detail=[f"{mm.short}:{getattr(nn, 'lineno', 0)} {hh}" for mm, nn, hh in ev_muts]))
+    out.extend(_foreign_flag_writes(db, ev_fns))
+    return out
+
+
+def _foreign_flag_writes(db: ProgramDB, ev_fns: Set[str]) -> List[Instance]:
+    """Evaluation code that sets a scalar field of ANOTHER node (`other._flag_ = <constant>`), a field evaluation code also
+    reads: the write outlives the evaluation unless a reset undoes it - either the reset of the class that owns the field
+    (`self._flag_ = …` in a _reset_only_my_cache_), or the reset of the class that wrote it (`x._flag_ = …` there)."""
+    out = []
+    se = db.cls("SymbolicExpression")
+    field_names = {f.name for c in [se] + se.all_subclasses() for f in c.own_fields if not f.classvar}
+    resets = [m for c in [se] + se.all_subclasses() for n, m in c.methods.items() if n == "_reset_only_my_cache_" and m.cls is c]
+    reset_self: Set[str] = set()
+    reset_foreign: Dict[str, Set[str]] = {}
+    for m in resets:
+        for n in own_nodes(m.node):
+            if isinstance(n, ast.Assign):
+                for t in n.targets:
+                    if isinstance(t, ast.Attribute) and isinstance(t.value, ast.Name):
+                        if t.value.id == "self":
+                            reset_self.add(t.attr)
+                        else:
+                            reset_foreign.setdefault(m.cls.name, set()).add(t.attr)
+    for q in sorted(ev_fns):
+        f = db.functions[q]
+        if f.cls is None or not f.cls.is_subclass_of(se) or f.name in ("_reset_only_my_cache_", "_reset_cache_"):
+            continue
+        for n in own_nodes(f.node):
+            if not isinstance(n, ast.Assign) or not isinstance(n.value, ast.Constant) or n.value.value is None:
+                continue
+            for t in n.targets:
+                if isinstance(t, ast.Attribute) and t.attr in field_names and not (isinstance(t.value, ast.Name) and t.value.id == "self") \
+                        and not isinstance(t.value, ast.Call):
+                    # is the field read by evaluation code at all?
+                    read = any(isinstance(x, ast.Attribute) and x.attr == t.attr and isinstance(x.ctx, ast.Load)
+                               for q2 in ev_fns for x in own_nodes(db.functions[q2].node))
+                    if not read:
+                        continue
+                    undone = t.attr in reset_self or any(t.attr in reset_foreign.get(k.name, set()) for k in f.cls.mro)
+                    out.append(inst("EVAL-STATE-RESET", HOLDS if undone else VIOLATION, f, f"{f.short}[{unparse(t)} = {unparse(n.value)}]",
+                                    f"the flag set on another node during evaluation is withdrawn by a reset" if undone else
+                                    f"`{unparse(n)}` sets a flag on another node (a selected variable shared with other queries) during "
+                                    f"evaluation and no reset withdraws it: after this query was evaluated once, every query that shares "
+                                    f"the node behaves as if the flag had always been set", line=n.lineno))
     return out
 
 
